@@ -809,8 +809,10 @@ func ruleAssociateFrame(c *RC) {
 		c.Anchor("apis/common.PacketOverStreamTunnel.Read/Write")
 		return
 	}
-	// Write: constants 0x00 at [0], BE uint16 length at [1:], 0xff at end
-	mt, _ := marshalTable(wr)
+	// Write: constants 0x00 at [0], BE uint16 length at [1:], 0xff at end.
+	// The frame is built where the buffer handed to Conn.Write is made.
+	builder := frameBuilder(p, wr)
+	mt, _ := marshalTable(builder)
 	has := func(off, w int64, field string) bool {
 		for _, x := range mt {
 			if x.Off == off && x.Width == w && (field == "" || strings.HasPrefix(x.Field, field)) {
@@ -827,7 +829,7 @@ func ruleAssociateFrame(c *RC) {
 		}
 	}
 	wff := false
-	instrs(wr, func(_ *ssa.BasicBlock, _ int, in ssa.Instruction) {
+	instrs(builder, func(_ *ssa.BasicBlock, _ int, in ssa.Instruction) {
 		if st, ok := in.(*ssa.Store); ok {
 			if k, ok := constInt(st.Val); ok && k == 255 {
 				wff = true
@@ -839,32 +841,70 @@ func ruleAssociateFrame(c *RC) {
 	} else {
 		c.Bad("frame@Write", wr.Pos(), "UDP-associate frame writer deviates from `0x00 | uint16 length | data | 0xff` (marker0=%v length@1=%v marker0xff=%v): [%s]", w0, wl, wff, wireKey(mt, true))
 	}
-	// Read: compares with 0x00 and 0xff, BE Uint16
+	// Read: compares with 0x00 and 0xff, BE Uint16 (a marker helper gets the
+	// expected byte as an argument: resolve it through the call sites)
 	c0, cff, be := false, false, false
-	instrs(rd, func(_ *ssa.BasicBlock, _ int, in ssa.Instruction) {
-		switch x := in.(type) {
-		case *ssa.BinOp:
-			if x.Op == token.NEQ || x.Op == token.EQL {
-				if k, ok := constInt(x.Y); ok {
-					if k == 0 {
-						c0 = true
-					}
-					if k == 255 {
-						cff = true
+	for _, f := range withHelpers(p, rd, 2) {
+		instrs(f, func(_ *ssa.BasicBlock, _ int, in ssa.Instruction) {
+			switch x := in.(type) {
+			case *ssa.BinOp:
+				if x.Op == token.NEQ || x.Op == token.EQL {
+					for _, k := range markerConsts(p, f, x) {
+						if k == 0 {
+							c0 = true
+						}
+						if k == 255 {
+							cff = true
+						}
 					}
 				}
+			case *ssa.Call:
+				if ord, op, w, ok := binaryCall(x); ok && op == "get" && ord == "BE" && w == 2 {
+					be = true
+				}
 			}
-		case *ssa.Call:
-			if ord, op, w, ok := binaryCall(x); ok && op == "get" && ord == "BE" && w == 2 {
-				be = true
-			}
-		}
-	})
+		})
+	}
 	if c0 && cff && be {
 		c.OKH("frame@Read", rd.Pos(), "checks 0x00, reads uint16 BE length, checks 0xff")
 	} else {
 		c.Bad("frame@Read", rd.Pos(), "UDP-associate frame reader deviates (marker 0x00 checked=%v, 0xff checked=%v, BE uint16 length=%v)", c0, cff, be)
 	}
+}
+
+// frameBuilder: the function that makes the buffer PacketOverStreamTunnel.Write
+// hands to the stream - Write itself, or the helper it gets the frame from.
+func frameBuilder(p *Prog, wr *ssa.Function) *ssa.Function {
+	builder := wr
+	instrs(wr, func(_ *ssa.BasicBlock, _ int, in ssa.Instruction) {
+		cl, ok := in.(*ssa.Call)
+		if !ok || !cl.Common().IsInvoke() || cl.Common().Method.Name() != "Write" {
+			return
+		}
+		for _, l := range LeavesX(p, wr, cl.Common().Args[0], 0) {
+			if mk, ok := l.(*ssa.MakeSlice); ok && mk.Parent() != nil {
+				builder = mk.Parent()
+			}
+		}
+	})
+	return builder
+}
+
+// markerConsts: the byte constants a comparison tests a frame byte against,
+// also when the constant arrives as an argument of a marker-reading helper.
+func markerConsts(p *Prog, f *ssa.Function, bo *ssa.BinOp) []int64 {
+	var out []int64
+	if !strings.HasSuffix(bo.X.Type().String(), "uint8") && !strings.HasSuffix(bo.X.Type().String(), "byte") {
+		return nil
+	}
+	for _, side := range []ssa.Value{bo.X, bo.Y} {
+		for _, l := range LeavesIP(p, f, side, 0) {
+			if k, ok := constInt(l); ok {
+				out = append(out, k)
+			}
+		}
+	}
+	return out
 }
 
 // isLoopIndex: a loop induction variable as go/ssa builds it: a phi, or
